@@ -686,3 +686,41 @@ func (p *Prog) literalCallSite(fn *ssa.Function) *ssa.CallCommon {
 	}
 	return nil
 }
+
+// appliedInPlace: the function literal fn is only ever called directly where it is written ((func(){...})(args)): no go,
+// no defer, not stored or passed on.
+func appliedInPlace(fn *ssa.Function) bool {
+	par := fn.Parent()
+	if par == nil {
+		return false
+	}
+	used := false
+	ok := true
+	eachInstr(par, func(in ssa.Instruction) {
+		for _, op := range in.Operands(nil) {
+			if op == nil || *op == nil {
+				continue
+			}
+			v := *op
+			if mc, isMC := v.(*ssa.MakeClosure); isMC && mc.Fn == ssa.Value(fn) {
+				// the closure object itself: must be the callee of a plain call
+				for _, ref := range refs(mc) {
+					if c, isCall := ref.(*ssa.Call); isCall && c.Call.Value == ssa.Value(mc) {
+						used = true
+					} else {
+						ok = false
+					}
+				}
+				continue
+			}
+			if v == ssa.Value(fn) {
+				if c, isCall := in.(*ssa.Call); isCall && c.Call.Value == ssa.Value(fn) {
+					used = true
+				} else if _, isMC := in.(*ssa.MakeClosure); !isMC {
+					ok = false
+				}
+			}
+		}
+	})
+	return used && ok
+}
